@@ -221,6 +221,11 @@ PROPS["C07"] = dict(
 )
 
 PROPS["C12"] = dict(
+    registered=True,
+    level_text="Kernel-checked for every repository state and every ref set: prune never panics (shallow commits, missing blocks, dangling refs included), completes on a closed history, marks exactly the commits reachable from any ref, "
+               "and its result satisfies every clause of pruneVerdict (reachable commits kept with table, index, profile, blocks, block indices wherever present; unreachable commits and objects referenced only by them gone; nothing created); repeated prune is the identity. "
+               "Correspondence: prune.Prune on seeded repositories (real tables sharing blocks, every ref kind, deleted refs, shallow commits) == model on key sets; pruneVerdict, full read-back of surviving tables and idempotence evaluated on the implementation.",
+    level_note=LEVEL_NOTE + "The theorems hold under the extracted fact that sort.Search results are checked before use (the unchecked code is not modelled: flipping the fact breaks the proofs and the runs exhibit the panic). Object contents are abstract; an interrupted prune is C13's subject.",
     lean_modules=["WrglModel.Props.C12"],
     quick_n=400, thorough_n=6000,
     rule="repositories built from a seed: 2..4 real tables (3..300 rows, variants sharing blocks), DAGs of 1..8 commits with arbitrary timestamps, 0..3 refs of every kind "
